@@ -107,6 +107,19 @@ def _evaluate(args):
     return rc, detail
 
 
+def _evaluate_all(args):
+    props, relfile, mutated, root = args
+    try:
+        model = Model(root, overlay={relfile: mutated})
+    except Exception:
+        return {p: 2 for p in props}
+    out = {}
+    for p in props:
+        rc, R = check.run_property(p, 'quick', root, write=False, quiet=True, model=model)
+        out[p] = rc
+    return out
+
+
 def variants_for(prop, root, table):
     """[(kind, label, relfile, mutated source)] applicable to the current tree; plus count of non-applicable seeds."""
     want = table.get(prop, {'fire': [], 'silent': []})
@@ -260,15 +273,12 @@ def calibrate(root='/repo', pinned='/tmp/pinned'):
     print(len(benign_sigs), 'benign signatures of', len(benign_keys))
     muts = mutgen.generate(root)
     props = sorted(check.PROPS)
-    jobs = [(p, m['file'], m['mutated'], root) for m in muts for p in props]
     with mp.Pool(16) as pool:
-        res = pool.map(_evaluate, jobs, chunksize=16)
+        res = pool.map(_evaluate_all, [(props, m['file'], m['mutated'], root) for m in muts], chunksize=8)
     table = {p: {'fire': [], 'silent': []} for p in props}
-    k = 0
-    for m in muts:
+    for m, rcs in zip(muts, res):
         for p in props:
-            rc, _ = res[k]
-            k += 1
+            rc = rcs[p]
             if rc == 1 and m['sig'] not in benign_sigs:
                 table[p]['fire'].append(m['sig'])
             elif m['sig'] in benign_sigs:
